@@ -120,8 +120,10 @@ class KeyAction(object):
             if key._key is None:
                 raise PGPError("No key!")
 
-            # if a key is in the process of being created, it needs to be allowed to certify its own user id
-            if len(key._uids) == 0 and key.is_primary and action is not key.certify.__wrapped__:
+            # if a key is in the process of being created, it needs to be allowed to certify its own user id:
+            # the identity that is being added to it (add_uid has made this key its parent), nothing else
+            if len(key._uids) == 0 and key.is_primary and not (
+                    action is key.certify.__wrapped__ and len(args) > 0 and getattr(args[0], '_parent', None) is key):
                 raise PGPError("Key is not complete - please add a User ID!")
 
             with self.usage(key, kwargs.get('user', None)) as _key:
